@@ -33,6 +33,7 @@ type RootSpec struct {
 	MaxPaths  int      `json:"max_paths"`
 	Replace   map[string]string `json:"replace"` // callee (full name) -> harness function with the same signature, engine side only
 	PreemptBound int   `json:"preemption_bound"` // max preemptive context switches per path (default 2)
+	NativeStress []int  `json:"native_stress"` // [argIndex, value]: when a finding of this root is replayed natively, that argument (a repetition count) is raised so that the native scheduler gets many chances to take the interleaving
 	PreemptAt   []string `json:"preempt_at"` // restrict lock preemption points to Lock calls made from functions matching one of these substrings
 	PreemptLock bool   `json:"preempt_at_lock"` // every mutex acquisition is a preemption point
 	SkipGo    []string `json:"skip_go"` // goroutines (by function-name substring) that are not started in this root
